@@ -12,6 +12,7 @@ import (
 )
 
 type asch struct {
+	fname      string // explicit name of a fixed type (unions of many distinct named types)
 	kind       string // null boolean int long float double bytes string fixed enum record array map union
 	n          int    // fixed size / enum symbol count
 	names      []string
@@ -107,6 +108,9 @@ func (p *plan) sx() sx {
 func (s *asch) toSchema() avro.Schema {
 	switch s.kind {
 	case "fixed":
+		if s.fname != "" {
+			return sFixed(s.fname, s.n)
+		}
 		return sFixed(fmt.Sprintf("fx%d", s.n), s.n)
 	case "enum":
 		syms := make([]string, s.n)
